@@ -168,8 +168,12 @@ void harness(void)
     int f_empty = 0, f_blank = 0, f_trail;
     char want[VR_BUF];
 
+#ifdef V_DELIM_KIND
+    k = V_DELIM_KIND;                 /* constant delimiter set (one unit per set) */
+#else
     k = nondet_uint();
     __CPROVER_assume(k < 3);
+#endif
     w_delim_kind = k;
     delim = (k == 0) ? (char *) NULL : ((k == 1) ? v_d1 : v_d2);
 
